@@ -20,7 +20,7 @@ AGGS = ["count", "valid_count", "sum", "mean"]
 
 
 def gen_case(rng, thorough):
-    N = rng.choice([0, 1, 2, 3, 4, 5, 6])
+    N = rng.choice([0, 1, 2, 3, 4, 5, 6, 6, 9, 12])
     ndims = rng.choice([1, 1, 2, 2, 3])
     shapes = []
     for d in range(ndims):
@@ -43,17 +43,21 @@ def gen_case(rng, thorough):
     K = rng.choice([None, None, 2])
     fshape = (N,) if K is None else (N, K)
     fact = numpy.array([rng.choice([0.5, 1.0, 2.0, -1.5, 3.0, float("nan")]) for _ in range(int(numpy.prod(fshape)))]).reshape(fshape)
-    weights = rng.choice([None, None, "arr"])
+    weights = rng.choice([None, None, "arr", "spread"])
     if weights == "arr":
         weights = numpy.array([rng.choice([0.0, 1.0, 0.5, 2.0, float("nan")]) for _ in range(N)])
+    elif weights == "spread":
+        # weights spanning many orders of magnitude (and ordinary decimals): a block must not depend on how large
+        # the cells of the OTHER blocks are (e.g. a zero test whose tolerance is scaled by the whole stacked array)
+        weights = numpy.array([rng.choice([1e9, 2.0 ** 30, 12.5, 0.1, 0.3, 1.7, 1e-3, 0.0, float("nan")]) for _ in range(N)])
     explicit = rng.random() < 0.5
     ishape = tuple([ext + 1] * ndims) if (explicit or any(c == ext for c in commons)) else tuple([ext] * ndims)
     return dict(N=N, shapes=shapes, arrs=arrs, commons=commons, fact=fact, weights=weights, ishape=ishape,
-                ignore=rng.random() < 0.5, fmt=rng.choice(["nan", "tuple"]))
+                ignore=rng.random() < 0.5, fmt=rng.choice(["nan", "tuple", "plain0"]))
 
 
 def call(cube, agg, c, fmt):
-    rma = float("nan") if fmt == "nan" else (0, False)
+    rma = float("nan") if fmt == "nan" else ((0, False) if fmt == "tuple" else 0)
     kw = dict(ignore_missing=c["ignore"], return_missing_as=rma)
     if agg == "count":
         return cube.count(weights=c["weights"], **kw)
@@ -82,8 +86,9 @@ def run(ctx):
     from catii import ccube, iindex, xcube
     thorough = ctx.tier == "thorough"
     ncases = 2500 if thorough else 400
-    ctx.rule = ("random dimension lists (1-3 dims, each 1-, 2- or 3-axis with extra extents 1..4, >=1 multi-axis; N 0..6; commons "
-                "library-chosen/frequent/rare/absent; explicit or minimal interacting shape); for each: ccube.product, xcube.product, output "
+    ctx.rule = ("random dimension lists (1-3 dims, each 1-, 2- or 3-axis with extra extents 1..4, >=1 multi-axis; N 0..12; commons "
+                "library-chosen/frequent/rare/absent; explicit or minimal interacting shape; weights none / small dyadic / spanning 12 orders of magnitude "
+                "with decimals; report formats NaN, (0, False), plain 0); for each: ccube.product, xcube.product, output "
                 "shape and EVERY block of count/valid_count/sum/mean in both cube types vs the aggregate over the dims sliced at that block. "
                 "A case is distinct by (shapes, data, commons); non-trivial when it has >= 2 sub-cubes")
     ctx.trusted = list(core.STD_TRUSTED) + [
